@@ -1,6 +1,9 @@
 package props
 
 import (
+	"pegverif/sqlw"
+	"os"
+	sqlite3 "github.com/mattn/go-sqlite3"
 	"context"
 	"database/sql"
 	"encoding/hex"
@@ -128,15 +131,18 @@ type c17Chain struct {
 	name  string
 	era   drive.Era
 	build func(b *drive.Builder)
+	// failShard k>0: the chain is run once per history-writing call site (those with index%4 == k-1), with the first
+	// statement of that site failing once; the daemon retries (or is restarted) and the same oracle must hold at the tip
+	failShard int
 }
 
 func c17Chains() []c17Chain {
 	l, x := CoverageLegacy(), Coverage2x()
-	out := []c17Chain{{"coverage-legacy", l.Era, l.Build}, {"coverage-2x", x.Era, x.Build}}
+	out := []c17Chain{{name: "coverage-legacy", era: l.Era, build: l.Build}, {name: "coverage-2x", era: x.Era, build: x.Build}}
 	// paging chain
 	pe := drive.EraStage(drive.StV202)
 	pe.Name = "paging"
-	out = append(out, c17Chain{"paging", pe, func(b *drive.Builder) {
+	out = append(out, c17Chain{name: "paging", era: pe, build: func(b *drive.Builder) {
 		A := AddrA
 		FundStd(b)
 		b.Add(drive.BlockSpec{Rates: R1(), OPRPayTo: A.String(), TX: []fake.Entry{b.Tx(KA, kit.Conversion(A, "PEG", 20000e8, "pUSD"))}})
@@ -175,7 +181,7 @@ func c17Chains() []c17Chain {
 	ze := drive.EraStage(drive.StV20)
 	ze.Name = "zeroing-after-snapshot"
 	ze.DevRewards, ze.SprSig = 578, 578
-	out = append(out, c17Chain{"zeroing-txid-coincidence", ze, func(b *drive.Builder) {
+	out = append(out, c17Chain{name: "zeroing-txid-coincidence", era: ze, build: func(b *drive.Builder) {
 		A := AddrA
 		FundStd(b)
 		b.Add(drive.BlockSpec{Rates: R1(), OPRPayTo: A.String(), TX: []fake.Entry{b.Tx(KA, kit.Conversion(A, "PEG", 5000e8, "pUSD"))}})
@@ -201,7 +207,7 @@ func c17Chains() []c17Chain {
 		era := drive.EraStage(st)
 		for _, sb := range c08SemanticBatches(era) {
 			sb := sb
-			out = append(out, c17Chain{"batch/" + era.Name + "/" + sb.name, era, func(b *drive.Builder) {
+			out = append(out, c17Chain{name: "batch/" + era.Name + "/" + sb.name, era: era, build: func(b *drive.Builder) {
 				FundStd(b)
 				b.Add(drive.BlockSpec{Rates: R1(), OPRPayTo: kit.AddrStr(KM), TX: []fake.Entry{sb.entry(b)}})
 				b.Add(drive.BlockSpec{Rates: R2(), OPRPayTo: kit.AddrStr(KM)})
@@ -212,7 +218,7 @@ func c17Chains() []c17Chain {
 	// pending forever: conversion from an asset whose average is unavailable
 	pp := drive.EraStage(drive.StPIP10)
 	pp.Name = "pip10-unconvertible"
-	out = append(out, c17Chain{"unconvertible-held-conversion", pp, func(b *drive.Builder) {
+	out = append(out, c17Chain{name: "unconvertible-held-conversion", era: pp, build: func(b *drive.Builder) {
 		FundStd(b)
 		A := AddrA
 		// pEUR zeroed by the band for 4 blocks: average unavailable, then spot returns
@@ -224,6 +230,15 @@ func c17Chains() []c17Chain {
 		b.Add(drive.BlockSpec{Rates: R1(), OPRPayTo: kit.AddrStr(KM)})
 		b.Add(drive.BlockSpec{Rates: R1(), OPRPayTo: kit.AddrStr(KM)})
 	}})
+	// the same chains with one history write failing once
+	for _, base := range out[:3] {
+		for k := 1; k <= 4; k++ {
+			v := base
+			v.name = fmt.Sprintf("%s!history-write-fails/%dof4", base.name, k)
+			v.failShard = k
+			out = append(out, v)
+		}
+	}
 	return out
 }
 
@@ -239,11 +254,60 @@ func runC17(c *core.Ctx, r *core.Result) {
 			r.Capped("deadline before " + ch.name)
 			return
 		}
-		c17Run(c, r, ch)
+		if ch.failShard == 0 {
+			c17Run(c, r, ch, "")
+			continue
+		}
+		sites := c17HistorySites(ch)
+		for i, site := range sites {
+			if i%4 != ch.failShard-1 {
+				continue
+			}
+			if c.Expired() {
+				r.Capped("deadline inside " + ch.name)
+				return
+			}
+			c17Run(c, r, ch, site)
+		}
 	}
 }
 
-func c17Run(c *core.Ctx, r *core.Result, ch c17Chain) {
+// c17HistorySites lists, in order of first use, the call sites that write the history tables while the chain is applied.
+func c17HistorySites(ch c17Chain) []string {
+	ch.era.Apply()
+	b := drive.NewBuilder(ch.era)
+	ch.build(b)
+	dir := drive.Scratch("c17p")
+	defer os.RemoveAll(dir)
+	var sites []string
+	seen := map[string]bool{}
+	hooks := &sqlw.Hooks{WantCaller: true, Before: func(op *sqlw.Op) error {
+		if c17IsHistoryWrite(op) {
+			if s := siteOf(op.Stack) + " | " + stmtClass(op.SQL); !seen[s] {
+				seen[s] = true
+				sites = append(sites, s)
+			}
+		}
+		return nil
+	}}
+	d, err := drive.Open(dir+"/db", fake.NewNode(b.Chain), hooks, false)
+	if err != nil {
+		panic("harness: " + err.Error())
+	}
+	d.SyncTo(b.Chain.Tip(), drive.SyncOpts{})
+	d.Close()
+	return sites
+}
+
+func c17IsHistoryWrite(op *sqlw.Op) bool {
+	if op.Kind == "prepare" || op.Kind == "begin" || op.Kind == "commit" || op.Kind == "rollback" {
+		return false
+	}
+	q := strings.ToUpper(op.SQL)
+	return strings.Contains(q, "PN_HISTORY") && (strings.Contains(q, "INSERT") || strings.Contains(q, "UPDATE"))
+}
+
+func c17Run(c *core.Ctx, r *core.Result, ch c17Chain, failSite string) {
 	era := ch.era
 	era.Apply()
 	b := drive.NewBuilder(era)
@@ -251,7 +315,38 @@ func c17Run(c *core.Ctx, r *core.Result, ch c17Chain) {
 	dir := drive.Scratch("c17")
 	run := &Run{B: b, Dir: dir, DBPath: dir + "/db"}
 	defer run.Close()
-	out := run.Sync()
+	var out drive.Outcome
+	if failSite == "" {
+		out = run.Sync()
+	} else {
+		fired := false
+		hooks := &sqlw.Hooks{WantCaller: true, Before: func(op *sqlw.Op) error {
+			if !fired && c17IsHistoryWrite(op) && siteOf(op.Stack)+" | "+stmtClass(op.SQL) == failSite {
+				fired = true
+				return sqlite3.Error{Code: sqlite3.ErrBusy}
+			}
+			return nil
+		}}
+		for attempt := 0; attempt < 3; attempt++ {
+			d := run.Open(hooks)
+			out = d.SyncTo(b.Chain.Tip(), drive.SyncOpts{FaultPending: func() bool { return !fired }})
+			if !out.Died {
+				break
+			}
+			// the daemon chose to exit: restart on a copy of the files (the dead incarnation's connections hold locks in this process)
+			run.D.Close()
+			run.D = nil
+			np := fmt.Sprintf("%s/r%d/db", dir, attempt)
+			if err := drive.CopyDB(run.DBPath, np); err != nil {
+				panic("harness: " + err.Error())
+			}
+			run.DBPath = np
+		}
+		if fired {
+			r.Count("history-write-failures-injected", 1)
+		}
+		ch.name += " [" + failSite + "]"
+	}
 	if !out.Reached {
 		r.Count("inconclusive-"+outcomeClass(out), 1)
 		return
